@@ -81,9 +81,11 @@ def main():
     assert rc == 0, out
     try:
         ev = tempfile.mkdtemp(prefix='seeded_ev_')
-        for c in m['checks']:
-            pid = c['property_id']
-            rc, out = sh('%s check %s --tier quick --evidence-dir %s' % (PY, pid, ev), cwd=VERIF, timeout=600)
+        from concurrent.futures import ThreadPoolExecutor
+        pids = [c['property_id'] for c in m['checks']]
+        with ThreadPoolExecutor(16) as ex:
+            res = list(ex.map(lambda pid: sh('%s check %s --tier quick --evidence-dir %s' % (PY, pid, ev), cwd=VERIF, timeout=600), pids))
+        for pid, (rc, out) in zip(pids, res):
             fired = []
             if rc == 1:
                 vf = os.path.join(ev, '%s.violations.json' % pid)
